@@ -378,10 +378,17 @@ fn sizes(ctx: &Ctx) -> Vec<(usize, usize)> {
             }
         }
     } else {
-        let s = [1usize, 2, 3, 4, 5, 6, 7, 8, 15, 16, 17, 31, 32, 33, 63, 64];
+        for w in 1..=24 {
+            for h in 1..=24 {
+                v.push((w, h));
+            }
+        }
+        let s = [1usize, 2, 3, 4, 7, 8, 16, 31, 32, 33, 48, 63, 64];
         for w in s {
             for h in s {
-                v.push((w, h));
+                if w > 24 || h > 24 {
+                    v.push((w, h));
+                }
             }
         }
     }
